@@ -6,4 +6,7 @@ GenNetwork -- dumped from the live rig.links.Links and rig.routing_table.Routes 
 """
 UNITS = {
     "GenNetwork": dict(props=["C01"], dumper="dump_c01.py"),
+    # the statements of wrapper() / place_and_route_wrapper() from `placements = place(...)` to the return:
+    # the composition the end-to-end theorems of Props/C01.v are about (fail closed on any other shape)
+    "GenPipeline": dict(props=["C01"], dumper="dump_c01w.py"),
 }
